@@ -241,6 +241,12 @@ def judge(module, traces, rundir, consts="", shard=2000, jobs=NCPU, timeout=3000
             isolate(part[:h], depth + 1)
             isolate(part[h:], depth + 1)
 
+    # a shard that did not complete is run once more, alone: with many JVMs side by side a run can die of memory pressure (seen: exit 75 on a
+    # loaded machine, the same shard fine on its own); a shard that fails twice is handled below
+    for k, r in enumerate(results):
+        if not ok(r, len(shards[k])) and "Parsing or semantic analysis failed" not in r["out"] and "configuration file" not in r["out"]:
+            mark(f"judge {label}: shard {k} did not complete (rc={r['rc']}), running it again alone")
+            results[k] = one(k)
     for k, r in enumerate(results):
         if ok(r, len(shards[k])):
             res["generated"] += r["generated"]
